@@ -273,6 +273,7 @@ package wallet
 //   -- largest first: the selection is a prefix of the candidates
 //@   loop "range utxos"
 //@     invariant [frame] frameRows(selected)
+//@     invariant [kind] forall k int :: { selected[k] } 0 <= k && k < len(selected) ==> !poolCreated(selected[k].ID)
 //@     invariant [cand-confirmed] forall m int :: { utxos[m] } 0 <= m && m < len(utxos) ==> !lockedNow(sw, utxos[m].ID) && !tpoolSpent[utxos[m].ID] && utxos[m].MaturityHeight <= tip.Height && !poolCreated(utxos[m].ID)
 //@     invariant [distinct-confirmed] forall a int, b int :: { utxos[a], utxos[b] } 0 <= a && a < b && b < len(utxos) ==> utxos[a].ID != utxos[b].ID
 //@     invariant [prefix] len(selected) == rangeindex + 1
@@ -293,6 +294,7 @@ package wallet
 //   -- defrag: the smallest remaining candidates, from the back
 //@   loop "for i >= 0"
 //@     invariant [frame] frameRows(selected)
+//@     invariant [kind] !useUnconfirmed ==> forall k int :: { selected[k] } 0 <= k && k < len(selected) ==> !poolCreated(selected[k].ID)
 //@     invariant [cand-defrag] forall m int :: { defraggable[m] } 0 <= m && m < len(defraggable) ==> !lockedNow(sw, defraggable[m].ID) && !tpoolSpent[defraggable[m].ID] && defraggable[m].MaturityHeight <= tip.Height && !poolCreated(defraggable[m].ID)
 //@     invariant [distinct-defrag] forall a int, b int :: { defraggable[a], defraggable[b] } 0 <= a && a < b && b < len(defraggable) ==> defraggable[a].ID != defraggable[b].ID
 //@     invariant [index] -1 <= i && i < len(defraggable)
